@@ -1,2 +1,150 @@
-(** C11 — placeholder while the proofs are being written. *)
-From TLXV Require Import C11.Ev C11.Sem.
+(** C11 — Semaphore conserves tokens and strands no waiter; barriers release together.
+    Statements only; models: C11/Sem.v, C11/BarMutex.v, C11/BarSpin.v (labelled transition systems whose events
+    are the tokens of the deterministic scheduler shim); proofs: C11/SemProofs.v, C11/BarMutexProofs.v,
+    C11/BarSpinProofs.v.  [reachable] = exists an event list accepted from the initial state, i.e. the theorems
+    quantify over ALL interleavings, any number of threads, any call lists / numbers of generations. *)
+From Coq Require Import List Arith Bool.
+From TLXV Require Import C11.Ev C11.Sem C11.SemProofs C11.SemCheckProofs C11.BarMutex C11.BarMutexProofs C11.BarSpin C11.BarSpinProofs.
+Import ListNotations.
+
+(** ---------------------------------------------------------------- Semaphore *)
+
+(** Token conservation, in every reachable state, with or without spurious wake-ups, for the shipped and the
+    repaired signal(): tokens handed out + current value = initial value + tokens signalled. *)
+Theorem C11_sem_conservation : forall shipped spur initial progs s,
+  Sem.reachable shipped spur initial progs s ->
+  granted s + value s = initial + signalled s /\ granted s <= initial + signalled s.
+Proof. exact conservation. Qed.
+Print Assumptions C11_sem_conservation.
+
+(** wait(d, sl) returns only from a state with value >= d + sl, takes exactly d tokens, returns the new value. *)
+Theorem C11_sem_wait_threshold : forall shipped spur s t s' d sl rest,
+  lstep shipped spur s (t, OUnlock) = Some s' ->
+  pc (thr s t) = Locked -> prog (thr s t) = CWait d sl :: rest ->
+  d + sl <= value s /\ value s' = value s - d /\ granted s' = granted s + d /\
+  pc (thr s' t) = Ret (value s - d) /\ prog (thr s' t) = rest.
+Proof. exact wait_threshold. Qed.
+Print Assumptions C11_sem_wait_threshold.
+
+(** ... and a waiter blocks only when the value does not cover its request. *)
+Theorem C11_sem_blocks_only_below_threshold : forall shipped spur s t s',
+  lstep shipped spur s (t, OWaitB) = Some s' ->
+  exists d sl rest, prog (thr s t) = CWait d sl :: rest /\ value s < d + sl.
+Proof. exact blocks_only_below_threshold. Qed.
+Print Assumptions C11_sem_blocks_only_below_threshold.
+
+(** try_acquire(d, sl) succeeds, taking d tokens, exactly when value >= d + sl. *)
+Theorem C11_sem_try_acquire_exact : forall shipped spur s t s' d sl rest,
+  lstep shipped spur s (t, OUnlock) = Some s' ->
+  pc (thr s t) = Locked -> prog (thr s t) = CTry d sl :: rest ->
+  (d + sl <= value s /\ value s' = value s - d /\ pc (thr s' t) = Ret 1) \/
+  (value s < d + sl /\ value s' = value s /\ granted s' = granted s /\ pc (thr s' t) = Ret 0).
+Proof. exact try_acquire_exact. Qed.
+Print Assumptions C11_sem_try_acquire_exact.
+
+(** value_ is only touched under the mutex: at most one thread is inside a critical section. *)
+Theorem C11_sem_mutual_exclusion : forall shipped spur initial progs s t u,
+  Sem.reachable shipped spur initial progs s ->
+  (pc (thr s t) = Locked \/ pc (thr s t) = Posted) ->
+  (pc (thr s u) = Locked \/ pc (thr s u) = Posted) -> t = u.
+Proof. exact mutual_exclusion. Qed.
+Print Assumptions C11_sem_mutual_exclusion.
+
+(** No stranded waiter (signal() repaired to notify_all, fixes/C11/01): in every reachable rest state no thread
+    is blocked in a wait(d, sl) although value >= d + sl.  [spur = false] is the meaningful instance. *)
+Theorem C11_sem_no_stranded_waiter : forall spur initial progs s t,
+  Sem.reachable false spur initial progs s -> quiescent false spur s -> ~ stranded s t.
+Proof. exact no_stranded_waiter. Qed.
+Print Assumptions C11_sem_no_stranded_waiter.
+
+(** The shipped signal() (notify_one) violates exactly this: initial 0; wait(1,1) | wait(1,0) | signal(); signal(). *)
+Theorem C11_sem_signal_shipped_refuted :
+  exists initial progs s t,
+    Sem.reachable true false initial progs s /\ quiescent true false s /\ stranded s t.
+Proof. exact signal_shipped_refuted. Qed.
+Print Assumptions C11_sem_signal_shipped_refuted.
+
+(** The direct trace checker run on every REAL trace (sem_check: recomputes the token count from the calls in
+    the order of the unlock events and compares every returned value, wait threshold and try_acquire outcome)
+    accepts every trace of the transition system: a negative verdict on a real trace means the real code
+    left the model. *)
+Theorem C11_sem_check_accepts_model : forall shipped spur initial progs tr s,
+  srun shipped spur (init initial progs) tr = Some s -> sem_check0 initial progs tr = true.
+Proof. exact sem_check_accepts_model. Qed.
+Print Assumptions C11_sem_check_accepts_model.
+
+(** ---------------------------------------------------------------- ThreadBarrierMutex (n = length gens >= 1) *)
+
+(** No thread leaves generation g before all participants have entered it (with or without spurious wake-ups). *)
+Theorem C11_bm_no_early_exit : forall spur gens s t u g,
+  1 <= length gens -> breachable spur (length gens) gens s ->
+  t < length gens -> u < length gens ->
+  g < gen (bthr s t) -> bentered s u g.
+Proof. exact bm_no_early_exit. Qed.
+Print Assumptions C11_bm_no_early_exit.
+
+(** The action runs exactly once per completed generation, in order, never for an incomplete one, and before
+    anyone is released from that generation. *)
+Theorem C11_bm_action_once_before_release : forall spur gens s,
+  1 <= length gens -> breachable spur (length gens) gens s ->
+  map snd (acts s) = rev (seq 0 (bG s)) /\
+  (forall g, count_occ Nat.eq_dec (map snd (acts s)) g = if g <? bG s then 1 else 0) /\
+  (forall t g, t < length gens -> g < gen (bthr s t) -> In g (map snd (acts s))).
+Proof. exact bm_action_once_before_release. Qed.
+Print Assumptions C11_bm_action_once_before_release.
+
+(** ... by the last arriver, when all others have arrived and are still inside. *)
+Theorem C11_bm_action_by_last : forall spur gens s t g s',
+  1 <= length gens -> breachable spur (length gens) gens s ->
+  bstep spur s (t, OAct g) = Some s' ->
+  g = gen (bthr s t) /\ g = bG s /\ ~ In t (arrived s) /\
+  (forall u, u < length gens -> u <> t -> In u (arrived s) /\ binside s u /\ gen (bthr s u) = g) /\
+  (forall u, u < length gens -> gen (bthr s u) <= g) /\
+  ~ In g (map snd (acts s)) /\ acts s' = (t, g) :: acts s.
+Proof. exact bm_action_by_last. Qed.
+Print Assumptions C11_bm_action_by_last.
+
+(** Reusable for any number K of generations: the only rest state is "everybody crossed K times". *)
+Theorem C11_bm_reusable : forall n K s t,
+  1 <= n -> breachable false n (repeat K n) s -> bquiescent false s -> t < n ->
+  bpc (bthr s t) = BDone /\ gen (bthr s t) = K.
+Proof. exact bm_reusable. Qed.
+Print Assumptions C11_bm_reusable.
+
+(** ---------------------------------------------------------------- ThreadBarrierSpin (wait and wait_yield) *)
+
+Theorem C11_bs_no_early_exit : forall y gens s t u g,
+  1 <= length gens -> sreachable (length gens) y gens s ->
+  t < length gens -> u < length gens ->
+  g < sgen (sthr s t) -> sentered s u g.
+Proof. exact bs_no_early_exit. Qed.
+Print Assumptions C11_bs_no_early_exit.
+
+Theorem C11_bs_action_once_before_release : forall y gens s,
+  1 <= length gens -> sreachable (length gens) y gens s ->
+  map snd (sacts s) = rev (seq 0 (length (sacts s))) /\
+  sstp s <= length (sacts s) <= sstp s + 1 /\
+  (forall g, count_occ Nat.eq_dec (map snd (sacts s)) g = if g <? length (sacts s) then 1 else 0) /\
+  (forall t g, t < length gens -> g < sgen (sthr s t) ->
+               In g (map snd (sacts s)) /\ count_occ Nat.eq_dec (map snd (sacts s)) g = 1).
+Proof. exact bs_action_once_before_release. Qed.
+Print Assumptions C11_bs_action_once_before_release.
+
+Theorem C11_bs_action_by_last : forall y gens s t g s',
+  1 <= length gens -> sreachable (length gens) y gens s ->
+  sstep s (t, OAct g) = Some s' ->
+  g = sgen (sthr s t) /\ g = sstp s /\ (exists l, sarrived s = t :: l) /\
+  (forall u, u < length gens -> u <> t ->
+             In u (sarrived s) /\ spinb (spc (sthr s u)) = true /\ tstep (sthr s u) = sstp s /\ sgen (sthr s u) = g) /\
+  (forall u, u < length gens -> sgen (sthr s u) <= g) /\
+  ~ In g (map snd (sacts s)) /\ sacts s' = (t, g) :: sacts s /\ sstp s' = sstp s.
+Proof. exact bs_action_by_last. Qed.
+Print Assumptions C11_bs_action_by_last.
+
+(** Reusable for any K: the barrier cannot be stuck in its busy loops short of the end. *)
+Theorem C11_bs_no_livelock : forall n y K s t,
+  1 <= n -> sreachable n y (repeat K n) s ->
+  (forall e s', sstep s e = Some s' -> is_spin s e) ->
+  t < n -> spc (sthr s t) = SDone /\ sgen (sthr s t) = K.
+Proof. exact bs_no_livelock. Qed.
+Print Assumptions C11_bs_no_livelock.
